@@ -1,7 +1,7 @@
 '''C08 - every written file is structurally valid TRIPOLI-4 input.'''
 from .. import model as M
 from .. import gen_cells, gen_univ, gen_lat, gen_hostile
-from . import c04
+from . import c04, c10
 from ..judge import convert_deck
 from ..t4file import RULES
 
@@ -46,6 +46,9 @@ SOURCES = {
                                                'trcl-star', 'trcl-pair')
                    for rot in ('generic', 'flip-x', 'flip-y', 'flip-z',
                                'quarter', 'permutation')]),
+    'mat': (None, ['mass-atomrho', 'mass-massrho', 'atom-atomrho',
+                   'keywords', 'repeated-nuclide', 'same-value-spellings',
+                   'two-densities']),
 }
 
 
@@ -58,9 +61,9 @@ class _Sub:
         self.seed = case.seed
 
 _PER = {'quick': {'c01': 3, 'c05': 4, 'c06': 3, 'c07': 2, 'hostile': 12,
-                  'c04': 4},
+                  'c04': 4, 'mat': 6},
         'thorough': {'c01': 150, 'c05': 200, 'c06': 120, 'c07': 100,
-                     'hostile': 500, 'c04': 150}}
+                     'hostile': 500, 'c04': 150, 'mat': 150}}
 FLAGS = ['--skip-deduplication', '--skip-compositions', '--skip-geomcomp',
          '--skip-boundary-conditions', '--always-inline-filling',
          '--always-inline-filled']
@@ -86,6 +89,8 @@ def build(case):
     src, fam = case.family.split(':', 1)
     if src == 'c04':
         deck = c04.build(_Sub(case, fam))
+    elif src == 'mat':
+        deck = c10.build(_Sub(case, fam))
     else:
         deck = SOURCES[src][0](case.rng, fam)
     if case.rng.random() < 0.4:
